@@ -239,6 +239,26 @@ theorem tailKey_concat {l : LruList} {init k c} (h : l.items = init ++ [(k, c)])
 
 theorem tailKey_nil {l : LruList} (h : l.items = []) : l.tailKey = none := by simp [tailKey, h]
 
+theorem mem_pushFront {l : LruList} {k c : Nat} {p : Nat × Nat} :
+    p ∈ (l.pushFront k c).items ↔ p = (k, c) ∨ (p ∈ l.items ∧ p.1 ≠ k) := by
+  rw [pushFront_items]; simp
+
+theorem mem_keys_pushFront {l : LruList} {k c x : Nat} :
+    x ∈ keys (l.pushFront k c).items ↔ x = k ∨ x ∈ keys l.items := by
+  rw [pushFront_items, keys_cons, List.mem_cons, mem_keys_without]
+  by_cases h : x = k <;> simp [h]
+
+theorem mem_remove {l : LruList} {k : Nat} {p : Nat × Nat} :
+    p ∈ (l.remove k).1.items ↔ p ∈ l.items ∧ p.1 ≠ k := by
+  rw [remove_items]; simp
+
+theorem mem_keys_remove {l : LruList} {k x : Nat} :
+    x ∈ keys (l.remove k).1.items ↔ x ∈ keys l.items ∧ x ≠ k := by
+  rw [remove_items, mem_keys_without]
+
+theorem remove_snd_isSome {l : LruList} {k : Nat} : (l.remove k).2.isSome ↔ k ∈ keys l.items := by
+  rw [remove_snd, costOf_isSome_iff]
+
 end LruList
 
 /-! ### Contract predicates -/
@@ -332,5 +352,19 @@ theorem costOf_append (a b : List (Nat × Nat)) (k) :
   induction a with
   | nil => simp
   | cons p a ih => simp only [List.cons_append, costOf_cons]; split <;> simp [ih]
+
+theorem AccessOk.mem_keys {t t' : List (Nat × Nat)} {k : Nat} (h : AccessOk t t' k) (x : Nat) :
+    x ∈ keys t' ↔ x ∈ keys t := by
+  by_cases hx : x = k
+  · subst hx; exact h.self
+  · simp only [Fv.Cache.Policy.mem_keys]
+    constructor
+    · rintro ⟨c, hc⟩; exact ⟨c, (h.others (x, c) hx).1 hc⟩
+    · rintro ⟨c, hc⟩; exact ⟨c, (h.others (x, c) hx).2 hc⟩
+
+theorem nodup_keys_append {a b : List (Nat × Nat)} (ha : (keys a).Nodup) (hb : (keys b).Nodup)
+    (hd : ∀ x, x ∈ keys a → x ∉ keys b) : (keys (a ++ b)).Nodup := by
+  rw [keys_append, List.nodup_append]
+  exact ⟨ha, hb, fun x hx y hy e => hd x hx (e ▸ hy)⟩
 
 end Fv.Cache.Policy
